@@ -14,10 +14,13 @@ import (
 	"fmt"
 	"os"
 	"runtime"
+	"seata.apache.org/seata-go/pkg/tm"
 	"sort"
 	"strings"
 	"sync"
 	"time"
+	"verifharness/faketc"
+	"verifharness/gen"
 
 	"github.com/go-sql-driver/mysql"
 	"github.com/prometheus/client_golang/prometheus"
@@ -445,10 +448,115 @@ func explore(r *rep.Run, sc Scenario) {
 	}
 }
 
+// throughResourceManager: the same obligation one layer up, on the closed system (no scheduling choices): a branch commit
+// delivered by the coordinator through the AT resource manager - also while the resource is temporarily not in the manager's
+// cache, or after the connection pool was dropped - is answered committed and its undo log is gone after a few clean-up
+// intervals, while another branch's undo log stays.
+func throughResourceManager(r *rep.Run) {
+	for _, variant := range []string{"plain", "resource-unknown-at-delivery", "connections-dropped-before-flush"} {
+		e, err := sys.NewEnv([]string{gen.S1.DDL}, sys.Options{NoXA: true})
+		if err != nil {
+			r.Broken = err.Error()
+			return
+		}
+		vtime.SetVirtual(func(d time.Duration) bool { return d < 20*time.Second })
+		e.Bare.Exec(gen.S1.InsertSQL([]int{0, 1, 2}))
+		saved := faketc.SettleAfterCommit
+		faketc.SettleAfterCommit = false
+		run := func(id int) string {
+			var xid string
+			tm.WithGlobalTx(context.Background(), &tm.GtxConfig{Name: "c11-rm"}, func(ctx context.Context) error {
+				xid = tm.GetXID(ctx)
+				_, err := e.AT.ExecContext(ctx, "UPDATE t_s1 SET cnt = cnt + 1 WHERE id = ?", id)
+				return err
+			})
+			return xid
+		}
+		committed, other := run(1), ""
+		// a second global transaction whose branch stays undecided: its undo log must survive
+		hold := make(chan struct{})
+		done := make(chan struct{})
+		go func() {
+			defer close(done)
+			tm.WithGlobalTx(context.Background(), &tm.GtxConfig{Name: "c11-rm-other"}, func(ctx context.Context) error {
+				other = tm.GetXID(ctx)
+				e.AT.ExecContext(ctx, "UPDATE t_s1 SET cnt = cnt + 1 WHERE id = 2")
+				hold <- struct{}{}
+				<-hold
+				return nil
+			})
+		}()
+		<-hold
+		mgr := datasource.GetDataSourceManager(branch.BranchTypeAT)
+		var cached interface{}
+		if variant == "resource-unknown-at-delivery" {
+			cached, _ = mgr.GetCachedResources().Load(e.ResourceID)
+			mgr.GetCachedResources().Delete(e.ResourceID)
+		}
+		statuses := e.TC.DriveCommit(committed)
+		if cached != nil {
+			mgr.GetCachedResources().Store(e.ResourceID, cached)
+		}
+		if variant == "connections-dropped-before-flush" {
+			e.Srv.Crash()
+		}
+		left := func() (mine, others int) {
+			rows, err := e.Bare.Query("SELECT xid FROM undo_log")
+			if err != nil {
+				return -1, -1
+			}
+			defer rows.Close()
+			for rows.Next() {
+				var x string
+				rows.Scan(&x)
+				if x == committed {
+					mine++
+				} else {
+					others++
+				}
+			}
+			return
+		}
+		for i := 0; i < 8; i++ {
+			vtime.Tick(0)
+			quiet.Settle(nil, 5)
+			if m, _ := left(); m == 0 {
+				break
+			}
+		}
+		mine, others := left()
+		r.Eval(true)
+		r.Count("through_resource_manager_cases", 1)
+		loc := Located{Scenario: Scenario{Name: "through-resource-manager/" + variant}}
+		for _, st := range statuses {
+			if st != int(branch.BranchStatusPhasetwoCommitted) {
+				r.Violate("not-answered-committed/rm-"+variant, clauseText, loc, fmt.Sprintf("the branch commit was answered %v", statuses))
+			}
+		}
+		if mine != 0 {
+			r.Violate("undo-log-never-deleted/rm-"+variant, clauseText, loc, fmt.Sprintf("%d undo-log row(s) of the committed branch %s are still there after 8 clean-up intervals (answers %v)", mine, committed, statuses))
+		}
+		if others != 1 {
+			r.Violate("other-undo-log-touched/rm-"+variant, clauseText, loc, fmt.Sprintf("the undecided transaction %s has %d undo-log row(s), expected 1", other, others))
+		}
+		hold <- struct{}{}
+		<-done
+		faketc.SettleAfterCommit = saved
+		vtime.SetPassThrough()
+	}
+}
+
 func Run(r *rep.Run) {
 	thorough := r.Tier == "thorough"
 	r.Rule = "request streams of 1-4 branch commits over two resources with branch ids shared across xids and xids shared across branches (7 undo-log rows present, 3 never requested) x {1 or 2 concurrent callers, queue pressure (receive channel 1, worker buffer 1, buffer limit 2), 1 or 2 commit workers} x {no fault, the k-th connection acquisition fails once, the k-th DELETE fails once, the resource is unknown until an environment event registers it}; a fresh real AsyncWorker per execution, its run loop and fanout workers adopted by the scheduler; every schedule with at most `bound` deviations (quick: 0, and 1 for the one- and two-request streams; thorough: 1, and 2 for the one-request stream), each worker process stops exploring after 4 / 15 minutes (reported as not exhaustive, never as a violation), capped at 1500 / 5000 executions per scenario (a capped scenario makes the run non-exhaustive) over the rewriter-inserted points of async_worker.go and fanout.go, every memdb statement, the ticker and the registration event; after the callers return, ticks are delivered until the budget (4-6) is used up and the worker is idle. Non-trivial = fault-free scenario, or the fault fired."
 	r.Assume = []string{"streams over two resources are not schedule-deterministic (the worker iterates a Go map of resource groups): their replays may diverge; diverged replays are counted and judged as executions of their own", "faults are transient (each fires once)", "time is virtual: the clean-up ticker ticks only when the scheduler chooses it", "memdb executes the DELETE the worker sends"}
+	if os.Getenv("VERIF_C11_RM") != "" {
+		// (a process of its own: the scheduler part registers its own driver and resource managers)
+		if _, _, worker := rep.Shard(); worker {
+			throughResourceManager(r)
+		}
+		return
+	}
 	setup()
 	if replay := os.Getenv("VERIF_REPLAY"); replay != "" {
 		b, err := os.ReadFile(replay)
@@ -472,6 +580,9 @@ func Run(r *rep.Run) {
 	}
 	shard, nshards, worker := rep.Shard()
 	if !worker {
+		os.Setenv("VERIF_C11_RM", "1")
+		rep.RunSharded(r, 1, 10*time.Minute)
+		os.Unsetenv("VERIF_C11_RM")
 		rep.RunSharded(r, 16, 60*time.Minute)
 		return
 	}
